@@ -22,3 +22,7 @@ type (
 var NewCond = real.NewCond
 
 func OnceFunc(f func()) func() { return real.OnceFunc(f) }
+
+func OnceValue[T any](f func() T) func() T { return real.OnceValue(f) }
+
+func OnceValues[T1, T2 any](f func() (T1, T2)) func() (T1, T2) { return real.OnceValues(f) }
